@@ -7,6 +7,9 @@ CONSTANTS
  DevVolOverwritten = FALSE
  DevUserRegen = FALSE
  DevRecentre = FALSE
+ DevKeySites = FALSE
+ DevProcForgets = FALSE
+ LargeN = 16
 INVARIANT Mark
 INVARIANT Prog
 POSTCONDITION Accepted
